@@ -849,7 +849,7 @@ def run(rep):
     except vlib.BrokenTie as e:
         # the tie is broken (recorded); the search for a failing input below still runs
         rep.broken_tie(e.what, e.detail)
-    vlib.prelude(rep)
+    vlib.prelude(rep, extra_modules=['RsjProps.C15NoFault'])
     thorough = rep.tier == "thorough"
 
     # 1. corpus
